@@ -200,6 +200,7 @@ def objectLookup (members : List (Nat × Nat)) (name : Nat) : Option Nat :=
 inductive Nest
   | col (typed : Bool)          -- a table column of the decorated type / of another type
   | label (e : Nest)
+  | labelT (typed : Bool) (e : Nest)   -- label(name, e, type_=T): the label's own type wins
   | subq (e : Nest)             -- column of a subquery / alias / CTE exporting `e`
   | union (e₁ e₂ : Nest)        -- column of a UNION: typed by its first SELECT
   | scalarSubq (e : Nest)
@@ -210,6 +211,7 @@ deriving Repr
 def Nest.typed : Nest → Bool
   | .col t => t
   | .label e => e.typed
+  | .labelT t _ => t
   | .subq e => e.typed
   | .union e _ => e.typed
   | .scalarSubq e => e.typed
